@@ -13,8 +13,8 @@ import (
 
 func init() {
 	register(&PropMeta{
-		ID:    "C18",
-		Level: "other",
+		ID:          "C18",
+		Level:       "other",
 		Explanation: "Decides the structural clauses of bot legality: (R1) every action the bot submits is guarded by the hand allowing exactly that action (HasAction) or is the arm of the switch on the chosen action string whose label equals the method; the only fall-through is fold, as the complement of the other five wager actions; (R2) the switch tag derives only from elements of the player's own allowed-action list (no string constant or other source can reach the chooser's results); (R3) on every path of the move request and of the chooser exactly one action is submitted or handed to exactly one timer / the chooser, and none only when no action is allowed; (R4) bet and raise amounts are the whole stack under 'stack ≤ minimum' or rand.Int63n(stack − minimum) + minimum with minimum = mini-bet (bet) / current wager + previous raise size (raise), the draw's argument being positive by the dominating comparison; pay amounts are the posted ante / blind of the position; (R5) the Actions methods forward the stored id to the same-named adapter method and the engine adapter to the same-named engine method with arguments in order; (R6) the move request is dominated by status playing, own hand index found, player non-nil, non-empty allowed actions and the staleness filter. NOT decided: legality of the amount under pokerface's raise/all-in conversion rules; that bot tables terminate.",
 		Rules: map[string]string{
 			"R1": "guard ↔ action agreement for every submitted action",
@@ -294,11 +294,17 @@ func checkC18(c *Ctx) {
 						continue
 					}
 					l, r := s.Args[0].Strip(), s.Args[1].Strip()
+					opName := s.Name
+					if r.IsField(bot.Obj().Name(), "lastGameStateTime") && l.Kind == "field" && l.Name == "UpdatedAt" {
+						// `gs.UpdatedAt <= br.lastGameStateTime` is `br.lastGameStateTime >= gs.UpdatedAt`
+						l, r = r, l
+						opName = map[string]string{"<": ">", ">": "<", "<=": ">=", ">=": "<="}[opName]
+					}
 					if !(l.IsField(bot.Obj().Name(), "lastGameStateTime") && r.Kind == "field" && r.Name == "UpdatedAt") {
 						continue
 					}
 					staleSucc := -1
-					switch s.Name {
+					switch opName {
 					case ">=", ">":
 						staleSucc = 0
 					case "<", "<=":
